@@ -25,6 +25,7 @@ type Program struct {
 	Contr            *Contracts
 	Ghosts           map[string]*GhostGlobal
 	strLits          map[string]uint64
+	immHeaps         []string
 	typeIDs          map[string]uint64
 	typeByID         map[uint64]types.Type
 	funcs            map[string]*ssa.Function
@@ -345,3 +346,17 @@ done:
 }
 
 var _ = smt.Bool
+
+// immutableHeaps: the field heaps of the fields declared "immutable" in the contract files.
+func (p *Program) immutableHeaps() []string {
+	if p.immHeaps != nil || len(p.Contr.Immutable) == 0 {
+		return p.immHeaps
+	}
+	hs, err := p.expandHeaps(p.Contr.Immutable)
+	if err != nil {
+		p.Contr.Errors = append(p.Contr.Errors, "immutable: "+err.Error())
+		return nil
+	}
+	p.immHeaps = hs
+	return hs
+}
